@@ -35,6 +35,16 @@ def adapter_headers():
         for behav in ("ok", "throw") + (("leave",) if shape == "p" else ()):
             for hlp in ("", " hlp"):
                 hs.append("cb conv %s none %s %s %s%s" % (frm, shape, to, behav, hlp))
+    # source flavour "the factory returns future<int&>" (ReturnsFuture admits it; constructed in place inside the adapter's
+    # future<int>) for every adapter that takes a source factory
+    for a in ("cbawait", "cbref", "cbawt", "cbwrap"):
+        for al in ("heap", "stor"):
+            hs.append("cb %s intref %s" % (a, al))
+    hs += ["cb discard intref heap", "cb callfn intref none", "cb callawt intref none"]
+    for shape, frm, to in CONV_SHAPES:
+        if frm == "int":
+            for behav in ("ok", "throw"):
+                hs.append("cb conv intref none %s %s %s%s" % (shape, to, behav, " hlp" if behav == "throw" else ""))
     return hs
 
 
@@ -234,8 +244,9 @@ def gen_reuse_exhaustive(headers, length):
 CORE = ["cb cbawait int heap", "cb cbawait int stor", "cb cbref int heap", "cb mkprom int heap", "cb mkprom int stor",
         "cb discard int heap", "cb callfn int none", "cb conv int none m int ok", "cb conv void none m int ok",
         "cb conv int none p int ok", "cb conv int none f int throw",
-        "cb callawt int none", "cb cbawt int heap", "cb cbwrap int stor"]
-CORE_REUSE = ["cb callfn int none", "cb callfn void none", "cb callawt int none", "cb callawt void none", "cb conv int none m int ok", "cb conv void none m int ok",
+        "cb callawt int none", "cb cbawt int heap", "cb cbwrap int stor",
+        "cb callfn intref none", "cb cbawait intref heap", "cb conv intref none m int ok"]
+CORE_REUSE = ["cb callfn intref none", "cb conv intref none m int ok", "cb callfn int none", "cb callfn void none", "cb callawt int none", "cb callawt void none", "cb conv int none m int ok", "cb conv void none m int ok",
               "cb conv int none p int ok hlp", "cb conv int none c int throw"]
 
 
@@ -309,7 +320,7 @@ def parse(case, out):
             "threads": [l.split() for l in case["lines"][1:] if l.split()[0] in ("g", "r", "d")],
             "pre": None, "imm": None, "fthrow": None, "cb": [], "conv": [], "events": [], "rets": {}, "outer": None, "final": None,
             "deadlock": False, "crash": False, "assert": None, "ops": [], "cbthrow": False, "read": None,
-            "coro": False, "dead_arg": 0, "caller_cont": 0}
+            "coro": False, "dead_arg": 0, "caller_cont": 0, "badref": 0}
     for l in case["lines"][1:]:
         w = l.split()
         if w[0] in ("pre", "imm"):
@@ -342,6 +353,8 @@ def parse(case, out):
             info["final"] = dict(kv.split("=") for kv in w[1:])
         elif w[0] == "dead-arg":
             info["dead_arg"] += 1
+        elif w[0] == "badref":
+            info["badref"] += 1
         elif w[0] == "caller-continues":
             info["caller_cont"] += 1
         elif w[0] == "deadlock":
@@ -416,7 +429,7 @@ class CallbackSuite(Suite):
         return n == 1 or sum(1 for a, b in zip(tids, tids[1:]) if a != b) >= 1
 
     def stats(self, cases, outs):
-        adapters, timing, outcomes, alloc, completer, nops, pairs, reads, ctxs = {}, {}, {}, {}, {}, {}, {}, {}, {}
+        adapters, timing, outcomes, alloc, completer, nops, pairs, reads, ctxs, flav = {}, {}, {}, {}, {}, {}, {}, {}, {}, {}
         switches = refused = ready_first = parked = 0
         flat = []
         for c in cases:
@@ -433,6 +446,10 @@ class CallbackSuite(Suite):
                     pairs[a + " -> " + b] = pairs.get(a + " -> " + b, 0) + 1
         for c, o in flat:
             i = parse(c, o)
+            fl = "factory returns future<T&>" if i["T"] == "intref" else "factory returns future<T>"
+            flav[fl] = flav.get(fl, 0) + 1
+            if i["T"] == "intref" and (i["imm"] and i["imm"][0] == "value"):
+                flav["... of which already resolved via static future<T&>::set_value"] = flav.get("... of which already resolved via static future<T&>::set_value", 0) + 1
             if i["read"]:
                 reads[i["read"]] = reads.get(i["read"], 0) + 1
             if i["adapter"] == "cbawait":
@@ -470,7 +487,7 @@ class CallbackSuite(Suite):
                         (n for n, x in enumerate(o) if x.startswith("s ")), default=-1) else ("registrar" if last == "0" else "other")
                     break
             completer[who] = completer.get(who, 0) + 1
-        return {"callback_await_calling_context(operations)": ctxs, "await_result_read_spelling(operations)": reads, "operations_per_case": nops, "reuse_consecutive_operations(registration outcome)": pairs,
+        return {"source_flavour(operations)": flav, "callback_await_calling_context(operations)": ctxs, "await_result_read_spelling(operations)": reads, "operations_per_case": nops, "reuse_consecutive_operations(registration outcome)": pairs,
                 "contract_violating_cases(callback throws)": sum(1 for c in cases if "cbthrow" in c["lines"]),
                 "adapters": adapters, "timing": timing, "source_outcome": outcomes, "allocator": alloc,
                 "registration_refused_by_cas": refused, "ready_at_await_ready": ready_first, "parked_then_resumed": parked,
@@ -507,6 +524,8 @@ class CallbackSuite(Suite):
         if i["dead_arg"]:
             msgs.append("args: the awaited operation was constructed from an argument that had already been destroyed "
                         "(the helper started after the caller's full expression and did not own a copy)")
+        if i["badref"]:
+            msgs.append("outcome: the source is a reference future, but what the adapter handed to the callback / converter is not the referenced object")
         if i["final"] is None:
             return msgs + ["final: no final state reported"]
         ad, T = i["adapter"], i["T"]
